@@ -183,6 +183,23 @@ func (r *Relay) Cut() {
 	}
 }
 
+// CutAfterFirst closes every relayed TCP connection except the first one accepted (with stream
+// multiplexing off the first one is the control connection, the others are work connections).
+// It returns how many connections were closed.
+func (r *Relay) CutAfterFirst() int {
+	r.mu.Lock()
+	var cs []net.Conn
+	if len(r.conns) > 2 {
+		cs = append(cs, r.conns[2:]...)
+		r.conns = r.conns[:2]
+	}
+	r.mu.Unlock()
+	for _, c := range cs {
+		c.Close()
+	}
+	return len(cs) / 2
+}
+
 func (r *Relay) Close() {
 	r.tln.Close()
 	if r.uconn != nil {
